@@ -58,7 +58,14 @@ type State struct {
 	closT     map[string]*Closure // closures by the term that denotes them
 	allocTypes []allocType        // heap objects allocated on this path: pointer term -> element type
 	escaped   map[string]bool     // allocated objects that other code may reach
+	errs      []errResult         // error-typed results of calls made on this path (property C12)
 	elemFacts []elemFact // assumed facts about every element of a slice returned by a library call
+}
+
+type errResult struct {
+	name string // callee#ordinal
+	term Term
+	pos  token.Pos
 }
 
 type allocType struct {
@@ -140,6 +147,7 @@ func (s *State) clone() *State {
 	n.interior = append([]interiorPtr{}, s.interior...)
 	n.elemFacts = append([]elemFact{}, s.elemFacts...)
 	n.allocTypes = append([]allocType{}, s.allocTypes...)
+	n.errs = append([]errResult{}, s.errs...)
 	return n
 }
 
@@ -161,6 +169,7 @@ type Oblig struct {
 	Unit   *Unit
 	Values [][2]string // replay terms: name, smt term
 	Guides []string    // guide formulas (alternatives) for the realistic-model search
+	Adapter string     // replay adapter chosen for this obligation
 	Classes []string   // known-finding classes for this obligation, evaluated in the obligation's state
 	Expect string      // "" => must be unsat (valid). "sat" => cover query
 }
